@@ -72,7 +72,7 @@ def main() -> int:
     a = ap.parse_args()
     tier = a.tier if a.tier in ("quick", "thorough") else "quick"
     seed = int(os.environ.get("VERIF_SEED", "0") or 0)
-    env = dict(os.environ, VERIF_TIER=tier, VERIF_SEED=str(seed), PYTHONHASHSEED="0", PYTHONPATH=HERE, PYTHONDONTWRITEBYTECODE="1")
+    env = dict(os.environ, VERIF_TIER=tier, VERIF_SEED=str(seed), PYTHONHASHSEED="0", PYTHONPATH=HERE + os.pathsep + os.environ.get("VERIF_REPO", "/repo"), PYTHONDONTWRITEBYTECODE="1")
     os.environ.update(VERIF_TIER=tier)
     sys.path.insert(0, HERE)
     t_start = time.monotonic()
